@@ -83,11 +83,15 @@ type c05ChunkReader struct {
 	toggle  bool
 	rs      uint64
 	eofSent bool
+	sticky  bool
 }
 
 func (r *c05ChunkReader) Read(p []byte) (int, error) {
 	idx := r.calls
 	r.calls++
+	if r.sticky && r.eofSent {
+		return 0, io.EOF // a reader that stays at EOF once it reported it (the model's `eof` event)
+	}
 	if idx == r.plan.faultAt && !r.fired {
 		r.fired = true
 		return 0, c05ErrTransient
@@ -2372,6 +2376,183 @@ func (e *c05Env) phaseCorrespondence() {
 
 // ---------------------------------------------------------------------------------------------
 
+// ---------------------------------------------------------------------------------------------
+// Phase S: correspondence of the streaming decoder MODEL (Model/Stream.lean, family dec, op stream) with the real
+// Decoder: a recording reader logs what every Read delivered (chunk / empty read / fault / EOF); the model is run
+// on exactly that event list (plus what was not read yet) and must return the same result for every ReadToken call.
+
+type c05RecReader struct {
+	inner *c05ChunkReader
+	log   []string
+}
+
+func (r *c05RecReader) Read(p []byte) (int, error) {
+	n, err := r.inner.Read(p)
+	switch {
+	case n > 0:
+		r.log = append(r.log, hx(p[:n]))
+		if err == io.EOF {
+			r.log = append(r.log, "E")
+		}
+	case err == io.EOF:
+		r.log = append(r.log, "E")
+	case err != nil:
+		r.log = append(r.log, "F")
+	default:
+		r.log = append(r.log, "-")
+	}
+	return n, err
+}
+
+func (e *c05Env) phaseStreamModel() {
+	c := e.c
+	or := c.NewOracle()
+	if or == nil {
+		c.Note("phase S skipped: no oracle")
+		return
+	}
+	// identities of two unexported sentinels, learnt from the implementation itself
+	sentinel := map[string]string{}
+	learn := func(in string, calls int, name string) {
+		d := jsontext.NewDecoder(strings.NewReader(in))
+		var err error
+		for i := 0; i < calls && err == nil; i++ {
+			_, err = d.ReadToken()
+		}
+		if cl, _, _ := c05ErrClass(err); strings.HasPrefix(cl, "SYN:*") {
+			sentinel[cl] = name
+		}
+	}
+	guard(func() {
+		learn(`{"a":}`, 3, "missingvalue")
+		learn(strings.Repeat("[", 10001), 10001, "maxdepth")
+	})
+	classOf := func(ecl string) string {
+		switch ecl {
+		case "EOF":
+			return "ioeof"
+		case "SYN:ueof":
+			return "eof"
+		case "SYN:utf8":
+			return "utf8"
+		case "SYN:text:character":
+			return "char"
+		case "SYN:text:escape sequence", "SYN:text:surrogate pair":
+			return "esc"
+		case "SYN:dup":
+			return "dup"
+		case "SYN:nonstring-name":
+			return "nonstring"
+		}
+		if n, ok := sentinel[ecl]; ok {
+			return n
+		}
+		return ecl
+	}
+	type sc struct {
+		line string
+		want []string
+		in   []byte
+		plan string
+	}
+	var cases []sc
+	r := c05Rng(c, 10, 0)
+	g := c05Gen{r}
+	inputs := c05SmallInputs(true)
+	for i, n := 0, c.N(1500, 40000); i < n; i++ {
+		d, _ := g.doc()
+		if len(d) <= 400 {
+			inputs = append(inputs, d)
+		}
+	}
+	for _, sh := range []string{"string", "string-esc", "string-utf8", "number", "number-frac", "array", "array-str", "ws", "name", "members", "objs"} {
+		for _, sz := range []int{60, 63, 64, 65, 70, 127, 129, 200} {
+			inputs = append(inputs, c05Sized(sh, sz))
+		}
+	}
+	const ncalls = 14
+	for ii, in := range inputs {
+		var plans []c05Plan
+		plans = append(plans, c05Plan{kind: "chunks", name: "1-byte", fixed: 1, emptyMode: ii % 3, faultAt: -1},
+			c05Plan{kind: "chunks", name: "max", eofWithData: ii%2 == 0, faultAt: -1}, c05RandomPlan(r, len(in)), c05RandomPlan(r, len(in)))
+		for k := 0; k < 3; k++ {
+			p := c05RandomPlan(r, len(in))
+			p.faultAt = r.IntN(6 + len(in)/3)
+			plans = append(plans, p)
+		}
+		for _, p := range plans {
+			optSel := 0
+			if r.IntN(4) == 0 {
+				optSel = 1 + r.IntN(3)
+			}
+			data := append([]byte(nil), in...)
+			pl := p
+			rec := &c05RecReader{inner: &c05ChunkReader{data: data, plan: &pl, rs: p.seed | 1, sticky: true}}
+			var want []string
+			ok := true
+			if pp := guard(func() {
+				dec := jsontext.NewDecoder(rec, c05Opts(optSel)...)
+				for i := 0; i < ncalls; i++ {
+					tok, err := dec.ReadToken()
+					cl, off, _ := c05ErrClass(err)
+					switch {
+					case cl == "nil":
+						want = append(want, fmt.Sprintf("T%d:%d", tok.Kind(), dec.InputOffset()))
+					case cl == "IO":
+						want = append(want, "F")
+					case cl == "EOF":
+						want = append(want, "Xioeof")
+					default:
+						want = append(want, fmt.Sprintf("X%s:%d", classOf(cl), off))
+					}
+				}
+			}); pp != nil {
+				c.Panic("stream-model:ReadToken", in, pp, map[string]any{"reader": p.String()})
+				ok = false
+			}
+			if !ok {
+				continue
+			}
+			line := fmt.Sprintf("dec stream %d %d %s", optSel, ncalls, strings.Join(rec.log, " "))
+			if rest := data[rec.inner.pos:]; len(rest) > 0 && (len(rec.log) == 0 || rec.log[len(rec.log)-1] != "E") {
+				line += " " + hx(rest)
+			}
+			line += " E"
+			cases = append(cases, sc{line, want, in, p.String()})
+			c.Case("S|"+string(in)+"|"+p.String(), len(in) >= 2)
+		}
+	}
+	lines := make([]string, len(cases))
+	for i, cs := range cases {
+		lines[i] = cs.line
+	}
+	ans := or.Ask(lines)
+	bad := 0
+	for i, cs := range cases {
+		got := strings.Split(ans[i], ";")
+		// the model reports T<kind>:<start>:<stop> and X<class>:<offset>; the implementation does not expose the start,
+		// and io.EOF carries no offset
+		for j := range got {
+			f := strings.Split(got[j], ":")
+			switch {
+			case len(f) == 3 && strings.HasPrefix(f[0], "T"):
+				got[j] = f[0] + ":" + f[2]
+			case f[0] == "Xioeof":
+				got[j] = "Xioeof"
+			}
+		}
+		if strings.Join(got, ";") != strings.Join(cs.want, ";") {
+			bad++
+			c.Violate("corr-stream", "dec stream", cs.in, map[string]any{"line": trunc(cs.line, 300), "implementation": strings.Join(cs.want, ";"), "model": ans[i], "input": trunc(string(cs.in), 200), "reader": cs.plan})
+		}
+		for _, w := range cs.want {
+			c.Hit("corr:stream:" + strings.SplitN(strings.SplitN(w, ":", 2)[0], "1", 2)[0][:1])
+		}
+	}
+	c.HitN("corr:stream-lines", int64(len(cases)))
+	c.Note("phase S: %d runs of %d ReadToken calls of the real Decoder over recorded reader events vs the streaming model, %d disagreements", len(cases), ncalls, bad)
+}
+
 // c05Replay re-runs the single case recorded in a replay file written by Violate.
 func (e *c05Env) replay(path string) {
 	c := e.c
@@ -2449,6 +2630,7 @@ func runC05(c *Ctx) {
 		c.Note("%s: %d stream runs in %.1fs (total %.1fs)", name, e.cases.Load()-before, time.Since(t0).Seconds(), time.Since(start).Seconds())
 	}
 	phase("phase H (model correspondence)", e.phaseCorrespondence)
+	phase("phase S (streaming model vs Decoder)", e.phaseStreamModel)
 	phase("phase A (exhaustive interleavings)", e.phaseExhaustive)
 	phase("phase B (fault at every read index)", e.phaseFaults)
 	phase("phase E (straddling tokens)", e.phaseStraddle)
